@@ -591,6 +591,9 @@ func init() {
 							return true
 						}
 					}
+					if isOpaqueErr(n) {
+						return e.choicePoint("errclass")
+					}
 				}
 				return false
 			}
@@ -629,6 +632,10 @@ func init() {
 						if walk(w, depth+1) {
 							return true
 						}
+					}
+					if isOpaqueErr(n) && !types.IsInterface(want) && e.choicePoint("errclass") {
+						e.store(cell, e.zero(want))
+						return true
 					}
 					return false
 				}
